@@ -368,6 +368,14 @@ class Models:
         R(["BTreeMap::is_empty"], lambda ex, st, fr, c, a, d, r: VBool(m_map_len(ex, st, fr, c, a, d, r).t == 0))
         R(["BTreeMap::new", "BTreeMap as Default::default", "HashMap as Default::default",
            "HashMap::with_capacity_and_hasher", "HashSet as Default::default"], m_map_new)
+        # HashSet / BTreeSet of keys or hashes: a map to unit
+        R(["HashSet::new", "BTreeSet::new", "BTreeSet as Default::default", "HashSet::with_capacity"], m_map_new)
+        R(["HashSet::insert", "BTreeSet::insert"], m_set_insert_g)
+        R(["HashSet::contains", "BTreeSet::contains"], lambda ex, st, fr, c, a, d, r: VBool(z3.Select(the_map(st, a[0]).present, key_term(ex, st, a[1]))))
+        R(["HashSet::remove", "BTreeSet::remove"], m_set_remove_g)
+        R(["HashSet::len", "BTreeSet::len"], m_map_len)
+        R(["HashSet::is_empty", "BTreeSet::is_empty"], lambda ex, st, fr, c, a, d, r: VBool(m_map_len(ex, st, fr, c, a, d, r).t == 0))
+        R(["HashSet::clear", "BTreeSet::clear"], m_map_clear)
         R(["Vec as Default::default"], lambda ex, st, fr, c, a, d, r: VVec([]))
         R(["RandomState as Default::default"], lambda ex, st, fr, c, a, d, r: VOpaque("hasher"))
         R(["Values as Iterator::copied"], lambda ex, st, fr, c, a, d, r: a[0])
@@ -1393,21 +1401,37 @@ SHAPES = {
 def m_map_new(ex, st, fr, c, a, d, r):
     """the key/value types come from the call's generic arguments or the destination's type"""
     ty = None
-    m = re.search(r"(BTreeMap|HashMap|HashSet)::<(.*)>::", c) or re.search(r"<(BTreeMap|HashMap|HashSet)<(.*)> as ", c)
+    m = re.search(r"(BTreeMap|HashMap|HashSet|BTreeSet)::<(.*)>::", c) or re.search(r"<(BTreeMap|HashMap|HashSet|BTreeSet)<(.*)> as ", c)
     if m:
         targs = split_top(m.group(2))
         kind = m.group(1)
     else:
         raise Unsupported("map constructor without type arguments: " + c)
     kt = base_type(targs[0])
-    vt = base_type(targs[1]) if kind != "HashSet" and len(targs) > 1 else "()"
+    vt = base_type(targs[1]) if kind not in ("HashSet", "BTreeSet") and len(targs) > 1 else "()"
     if kt == "Vec":
         kt = "K"   # byte-string keys: identified by an integer id per distinct slice (see key_term)
     if kt not in ("BlobHash", "K") or vt not in SHAPES:
         raise Unsupported(f"map of {kt} -> {vt} is not modelled")
-    mm = new_map("btree" if kind == "BTreeMap" else "hash", SHAPES[vt])
+    mm = new_map("btree" if kind in ("BTreeMap", "BTreeSet") else "hash", SHAPES[vt])
     mm.ksort = "H" if kt == "BlobHash" else "K"
     return mm
+
+
+def m_set_insert_g(ex, st, fr, c, a, d, r):
+    m = the_map(st, a[0])
+    k = key_term(ex, st, a[1])
+    was = z3.Select(m.present, k)
+    m.present = z3.Store(m.present, k, z3.BoolVal(True))
+    return VBool(z3.Not(was))
+
+
+def m_set_remove_g(ex, st, fr, c, a, d, r):
+    m = the_map(st, a[0])
+    k = key_term(ex, st, a[1])
+    was = z3.Select(m.present, k)
+    m.present = z3.Store(m.present, k, z3.BoolVal(False))
+    return VBool(was)
 
 
 def m_map_clear(ex, st, fr, c, a, d, r):
